@@ -68,6 +68,9 @@ CHECKS = {
          '6 (C14)', 'TLA+ enumeration (TLC) + gob replay + TLC-evaluated oracle'),
  'C15': ('Every pointer into every C01 document evaluated typed and generic; scope decided by TLC from the vocabulary trail.',
          '6 (C15)', 'TLA+ enumeration (TLC) + pointer replay + TLC-evaluated scope/equality oracle'),
+ 'C19': ('Whole valid documents grown along the vocabulary spine by TLC; validity of source, re-encoding and expansion observed with the '
+         'shipped JSON schema (python jsonschema as instrument); verdicts combined by TLC.',
+         '6 (C19)', 'TLA+ enumeration of valid documents (TLC) + replay (round trip, ExpandSpec) + JSON-schema validator as instrument'),
 }
 
 NA = {
